@@ -2,19 +2,20 @@
 (* Validation of traces recorded from the real chain by harness/t/subs.
 
    Obs mode (decides C11, C12, C13): every variable of Subscription.tla is set to the projection logged
-   after the step (raw fixation entries of plans and of the subscription, timers, balances), `st` holds the
-   logged line with the chain's own answers (QuerySubscriptionCurrent, FindPlan, GetPlanFromSubscription,
-   project list).  The ghost `owed` (months the consumer is entitled to) is advanced by the entitlement
-   rule of C12 from the real pre-state and the event.  Invariants / action properties below are evaluated
-   by TLC on the real states and real transitions.
+   after the step (raw fixation entries of plans and of every consumer's subscription, timers, balances), `st`
+   holds the logged line with the chain's own answers (QuerySubscriptionCurrent, FindPlan,
+   GetPlanFromSubscription, project list), `prev` the line before.  Ghosts: `owed[c]` (months consumer c is
+   entitled to) and `fowed[c]` (the accepted advance purchase) are advanced by the entitlement rule of C12 from
+   the events only (never read back from the chain).  Invariants / action properties below are evaluated by TLC
+   on the real states and real transitions.
 
    Conf (drift only, never a verdict): for every step the action of Subscription.tla is applied to the real
    pre-state and its prediction is compared with the real post-state; the lines that differ are collected
-   in `drift` (reported by the POSTCONDITION). *)
+   in `drift`. *)
 EXTENDS Subscription, IOUtils
-VARIABLES l, st, prev, drift, paidb
+VARIABLES l, st, prev, drift, fowed
 Trace == ndJsonDeserialize(IOEnv.VERIF_TRACE)
-tvars == <<vars, l, st, prev, drift, paidb>>
+tvars == <<vars, l, st, prev, drift, fowed>>
 WithDrift == IOEnv.VERIF_DRIFT = "1"
 
 ToSet(s) == {s[i] : i \in 1..Len(s)}
@@ -24,159 +25,182 @@ PlanVM(s) == [b \in {s[i].b : i \in 1..Len(s)} |->
                LET e == s[CHOOSE i \in 1..Len(s) : s[i].b = b] IN Ent(e.ref, e.latest, e.del, e.stale, [price |-> e.price])]
 SubVM(s) == [b \in {s[i].b : i \in 1..Len(s)} |->
                LET e == s[CHOOSE i \in 1..Len(s) : s[i].b = b] IN Ent(e.ref, e.latest, e.del, e.stale, SR(e.s))]
-CtFn(s) == [a \in {s[i].at : i \in 1..Len(s)} |->
-               LET e == s[CHOOSE i \in 1..Len(s) : s[i].at = a] IN [credit |-> e.credit, sblk |-> e.sblk]]
-TcuFn(s) == [k \in {<<s[i].pv, s[i].sblk>> : i \in 1..Len(s)} |->
-               LET e == s[CHOOSE i \in 1..Len(s) : <<s[i].pv, s[i].sblk>> = k] IN e.cu]
+Plans(r) == [p \in PlanIdx |-> PlanVM(r.plans[p])]
+Subs(r) == [c \in Consumers |-> SubVM(r.cs[c].sv)]
+MtSet(r) == UNION {{<<r.cs[c].mt[i], c>> : i \in 1..Len(r.cs[c].mt)} : c \in Consumers}
+CtFn(r) == LET K == UNION {{<<r.cs[c].ct[i].at, c>> : i \in 1..Len(r.cs[c].ct)} : c \in Consumers} IN
+           [k \in K |-> LET s == r.cs[k[2]].ct  e == s[CHOOSE i \in 1..Len(s) : s[i].at = k[1]] IN [credit |-> e.credit, sblk |-> e.sblk]]
+TcuFn(s) == [k \in {<<s[i].c, s[i].pv, s[i].sblk>> : i \in 1..Len(s)} |->
+               LET e == s[CHOOSE i \in 1..Len(s) : <<s[i].c, s[i].pv, s[i].sblk>> = k] IN e.cu]
+BalFn(r) == [b \in Buyers |-> r.bal[b]]
 
-IsTx(r) == r.ev \in {"planadd", "plandel", "buy", "adv", "auto", "relay"}
+IsTx(r) == r.ev \in {"planadd", "plandel", "buy", "adv", "auto", "relay", "drain"}
 IsAdv(r) == r.ev \in {"block", "epoch", "stale", "month", "payout"}
 
 \* ---- prediction of Subscription.tla for the step r from the current (real) state -------------------
 Pred(r) ==
   CASE r.ev = "planadd" -> PlanAddTx(r.p, BasePrice(r.p) + 10 * r.n)
     [] r.ev = "plandel" -> PlanDelTx(r.p)
-    [] r.ev = "buy"     -> BuyTx(r.cr, r.p, r.d, r.f)
-    [] r.ev = "adv"     -> AdvTx(r.cr, r.p, r.d)
-    [] r.ev = "auto"    -> AutoTx(r.cr, r.f, r.p)
-    [] r.ev = "relay"   -> RelayTx(r.cr, r.d)
+    [] r.ev = "buy"     -> BuyTx(r.cr, r.c, r.p, r.d, r.f)
+    [] r.ev = "adv"     -> AdvTx(r.cr, r.c, r.p, r.d)
+    [] r.ev = "auto"    -> AutoTx(r.cr, r.c, r.f, r.p)
+    [] r.ev = "relay"   -> RelayTx(r.cr, r.c, r.d)
+    [] r.ev = "drain"   -> DrainTx(r.cr, r.d)
     [] r.ev = "month"   -> IF r.ok \/ r.panic THEN OneBlock(Cur, now + 1, r.t) ELSE Cur
     [] OTHER            -> Blocks(Cur, now, tm, r.n)
-NoExp(V) == [b \in DOMAIN V |-> [V[b] EXCEPT !.d.exp = 0]]
+NoExp(V) == [c \in Consumers |-> [b \in DOMAIN V[c] |-> [V[c][b] EXCEPT !.d.exp = 0]]]
 Differs(r, S) ==
   IF IsTx(r)
   THEN \/ (~S.err /\ ~S.p) # r.ok
-       \/ r.ok /\ \/ S.pl # [p \in PlanIdx |-> PlanVM(r.plans[p])]
-                  \/ NoExp(S.sv) # NoExp(SubVM(r.sv))
-                  \/ S.bal # r.bal \/ S.mb # r.mb
-                  \/ S.ct # CtFn(r.ct)
-                  \/ Cardinality(S.mt) # Len(r.mt)
+       \/ r.ok /\ \/ S.pl # Plans(r)
+                  \/ NoExp(S.sv) # NoExp(Subs(r))
+                  \/ S.bal # BalFn(r) \/ S.mb # r.mb
+                  \/ S.ct # CtFn(r)
+                  \/ Cardinality(S.mt) # Cardinality(MtSet(r))
   ELSE \/ S.p # r.panic
        \/ ~r.panic /\ r.ev # "month" /\ r.h # now + r.n
-       \/ ~r.panic /\ \/ S.pl # [p \in PlanIdx |-> PlanVM(r.plans[p])]
-                      \/ NoExp(S.sv) # NoExp(SubVM(r.sv))
-                      \/ S.bal # r.bal
-                      \/ S.ct # CtFn(r.ct)
-                      \/ Cardinality(S.mt) # Len(r.mt)
+       \/ ~r.panic /\ \/ S.pl # Plans(r)
+                      \/ NoExp(S.sv) # NoExp(Subs(r))
+                      \/ S.bal # BalFn(r)
+                      \/ S.ct # CtFn(r)
+                      \/ Cardinality(S.mt) # Cardinality(MtSet(r))
 
-\* ---- entitlement rule of C12 (ghost owed), from the real pre-state `st` and the event r ---------------
-LatestPrice(p) == LET v == FindV(pl[p], now, now) IN IF v = NONE THEN 0 ELSE pl[p][v].d.price
-Owed(r) ==
+\* ---- entitlement rule of C12 (ghosts owed, fowed) from the events; `st` is the line before r -----------------
+NoF == [d |-> 0, pi |-> "", pb |-> 0]
+\* block of the plan version GetPlan hands out in line a: latest, not deleted
+LatestBlk(a, p) == LET s == a.plans[p]  c == {i \in 1..Len(s) : s[i].latest /\ s[i].del > a.h} IN
+                   IF c = {} THEN NONE ELSE s[CHOOSE i \in c : TRUE].b
+Fired(a, r, c) == r.ev = "month" /\ r.ok /\ \E i \in 1..Len(a.cs[c].mt) : a.cs[c].mt[i] <= r.t
+\* months after an expiry of the last paid month
+AfterLast(a, r, c) ==
+  LET s == a.cs[c].subn  P == Plans(r) IN     \* plans as the callback saw them
+  IF fowed[c].d > 0
+  THEN IF FindV(P[fowed[c].pi], fowed[c].pb, r.h) # NONE THEN fowed[c].d ELSE 0
+  ELSE IF s.on /\ s.auto # "none"
+  THEN LET v == FindV(P[s.auto], r.h, r.h) IN
+       IF v # NONE /\ a.bal[s.cr] >= P[s.auto][v].d.price THEN 1 ELSE 0
+  ELSE 0
+Owed1(r, c) ==
   CASE r.ev = "reset" -> 0
-    [] r.ev = "buy" /\ r.ok ->
-         IF ~st.subn.on \/ st.subn.pi # r.p THEN r.d ELSE owed + r.d
-    [] r.ev = "month" /\ r.ok ->
-         IF owed > 1 THEN owed - 1
-         ELSE IF owed = 0 THEN 0
-         ELSE LET s == st.subn
-                  P == [p \in PlanIdx |-> PlanVM(r.plans[p])]      \* plans as the callback saw them
-              IN IF s.fut.on
-                 THEN IF FindV(P[s.fut.pi], s.fut.pb, r.h) # NONE THEN s.fut.d ELSE 0
-                 ELSE IF s.auto # "none"
-                 THEN LET v == FindV(P[s.auto], r.h, r.h) IN
-                      IF v # NONE /\ st.bal[s.cr] >= P[s.auto][v].d.price THEN 1 ELSE 0
-                 ELSE 0
-    [] OTHER -> owed
-
-\* ---- C11: the cu-tracker timer consumed between two logged lines (the driver cuts advances so that there is
-\*      at most one) and what it should pay ------------------------------------------------------------------
-SumSeq(f, n) == LET RECURSIVE S(_) S(i) == IF i = 0 THEN 0 ELSE f[i] + S(i - 1) IN S(n)
-Consumed(a, b) == IF IsAdv(b) THEN {i \in 1..Len(a.ct) : a.ct[i].at < b.h} ELSE {}
-Timer(a, b) == a.ct[CHOOSE i \in Consumed(a, b) : TRUE]
-Keys(a, sblk) == {j \in 1..Len(a.tcu) : a.tcu[j].sblk = sblk}
-TotalCu(a, sblk) == SumSeq([j \in 1..Len(a.tcu) |-> IF a.tcu[j].sblk = sblk THEN a.tcu[j].cu ELSE 0], Len(a.tcu))
-Amt(credit, total) == IF credit \div total > LIMIT_PER_CU THEN LIMIT_PER_CU * total ELSE credit
-Share(a, credit, total, j) == (Amt(credit, total) * a.tcu[j].cu) \div total
-ProvShare(a, sblk, credit, total, p) ==
-  SumSeq([j \in 1..Len(a.tcu) |-> IF a.tcu[j].sblk = sblk /\ a.tcu[j].pv = p THEN Share(a, credit, total, j) ELSE 0], Len(a.tcu))
-PaidNow(a, b) == IF Consumed(a, b) = {} THEN {}
-                 ELSE LET c == Timer(a, b) IN IF TotalCu(a, c.sblk) > 0 THEN {c.sblk} ELSE {}
-\* tokens that left (subscription module + buyers) in the step
-Out(a, b) == (a.mb + a.bal["c"] + a.bal["b"]) - (b.mb + b.bal["c"] + b.bal["b"])
-ProvDelta(a, b, p) == b.prov[p] - a.prov[p]
-PoolsDelta(a, b) == (b.pools.valdist - a.pools.valdist) + (b.pools.community - a.pools.community)
-Received(a, b) == ProvDelta(a, b, "v1") + ProvDelta(a, b, "v2") + ProvDelta(a, b, "v3") + (b.contr - a.contr) + PoolsDelta(a, b)
+    [] r.ev = "buy" /\ r.ok /\ r.c = c ->
+         IF ~st.cs[c].subn.on \/ st.cs[c].subn.pi # r.p THEN r.d ELSE owed[c] + r.d
+    [] Fired(st, r, c) ->
+         IF owed[c] > 1 THEN owed[c] - 1 ELSE IF owed[c] = 0 THEN 0 ELSE AfterLast(st, r, c)
+    [] OTHER -> owed[c]
+Fowed1(r, c) ==
+  CASE r.ev = "reset" -> NoF
+    [] r.ev = "adv" /\ r.ok /\ r.c = c -> [d |-> r.d, pi |-> r.p, pb |-> LatestBlk(st, r.p)]
+    [] Fired(st, r, c) /\ owed[c] = 1 -> NoF         \* activated, or the subscription ended
+    [] OTHER -> fowed[c]
 
 Observe(r) ==
   /\ now' = r.h /\ tm' = r.t
-  /\ pl' = [p \in PlanIdx |-> PlanVM(r.plans[p])]
-  /\ sv' = SubVM(r.sv)
-  /\ mt' = ToSet(r.mt) /\ ct' = CtFn(r.ct) /\ tcu' = TcuFn(r.tcu)
-  /\ bal' = r.bal /\ mb' = r.mb
+  /\ pl' = Plans(r)
+  /\ sv' = Subs(r)
+  /\ mt' = MtSet(r) /\ ct' = CtFn(r) /\ tcu' = TcuFn(r.tcu)
+  /\ bal' = BalFn(r) /\ mb' = r.mb
   /\ pay' = pay
   /\ panicked' = (IsAdv(r) /\ r.panic)
   /\ nmonths' = IF r.ev = "reset" THEN 0 ELSE IF r.ev = "month" /\ r.ok THEN nmonths + 1 ELSE nmonths
   /\ nops' = IF r.ev = "reset" THEN 0 ELSE nops + 1
   /\ hist' = hist
-  /\ owed' = Owed(r)
+  /\ owed' = [c \in Consumers |-> Owed1(r, c)]
+  /\ fowed' = [c \in Consumers |-> Fowed1(r, c)]
   /\ st' = r /\ prev' = st
 
-TInit == /\ Init /\ l = 1 /\ Trace[1].ev = "reset" /\ st = Trace[1] /\ prev = Trace[1] /\ drift = <<>> /\ paidb = {}
+TInit == /\ Init /\ l = 1 /\ Trace[1].ev = "reset" /\ st = Trace[1] /\ prev = Trace[1] /\ drift = <<>>
+         /\ fowed = [c \in Consumers |-> NoF]
 TNext == /\ l < Len(Trace) /\ l' = l + 1
          /\ LET r == Trace[l + 1] IN
               /\ Observe(r)
-              /\ paidb' = IF r.ev = "reset" THEN {} ELSE paidb \cup PaidNow(st, r)
               /\ drift' = IF WithDrift /\ r.ev # "reset" /\ Len(drift) < 50 /\ Differs(r, Pred(r)) THEN Append(drift, l + 1) ELSE drift
 TSpec == TInit /\ [][TNext]_tvars
 
 Post == LET d == TLCGet("stats").diameter IN PrintT(<<"HWM", d>>) /\ d = Len(Trace)
 DriftOut == l < Len(Trace) \/ PrintT(<<"DRIFT", drift>>)
+NotReset == st.ev # "reset"
 
 -----------------------------------------------------------------------------
-\* C13 (Obs): answers of the chain itself
-PlanFound == st.pfound /\ st.ffound /\ ~st.perr
+\* C13 (Obs): answers of the chain itself, for every consumer
+PlanFound == \A c \in Consumers : st.cs[c].pfound /\ st.cs[c].ffound /\ ~st.cs[c].perr
 \* no begin/end-block panic and no transaction failure caused by a vanished plan version
-\* (pcls = "plan": the driver found the plans fixation prefix / PutPlan frames in the recovered panic)
+\* (pcls = "plan": the driver found the plans keeper / plans fixation prefix in the recovered panic)
 NoPlanPanic == ~(st.panic /\ st.pcls = "plan")
 NoLostPlanErr == st.err # "lostplan"
+\* RefsCoverHolders / HeldVersionsExist of Subscription.tla are evaluated on the real raw entries as well
 \* the transcription of FindEntry agrees with the chain on the raw entries (sanity of the reading)
-FindAgrees == st.sub.on => ((FindV(pl[st.sub.pi], st.sub.pb, now) # NONE) = st.pfound)
+FindAgrees == \A c \in Consumers : st.cs[c].sub.on => ((FindV(pl[st.cs[c].sub.pi], st.cs[c].sub.pb, now) # NONE) = st.cs[c].pfound)
 
 \* C12 (Obs)
-SubnMatchesOwed == (st.subn.on <=> owed > 0) /\ (st.subn.on => st.subn.left = owed)
-CuInRange == st.sub.on => (st.sub.cuL >= 0 /\ st.sub.cuL <= st.sub.cuT) /\ (st.subn.on => st.subn.cuL <= st.subn.cuT)
-ProjectsFollow == (st.sub.on => st.nproj >= 1) /\ (~st.sub.on /\ ~st.subn.on => st.nproj = 0)
-TimerArmed == /\ st.subn.on => (st.subn.exp \in ToSet(st.mt) /\ st.subn.exp > st.t)
+SubnMatchesOwed == \A c \in Consumers : LET s == st.cs[c].subn IN (s.on <=> owed[c] > 0) /\ (s.on => s.left = owed[c])
+\* an accepted advance purchase is recorded on the version of the subscription that lives on
+FutRecorded == \A c \in Consumers : LET s == st.cs[c].subn IN
+                 s.on => /\ s.fut.on <=> fowed[c].d > 0
+                         /\ s.fut.on => (s.fut.d = fowed[c].d /\ s.fut.pi = fowed[c].pi /\ s.fut.pb = fowed[c].pb)
+CuInRange == \A c \in Consumers : LET x == st.cs[c] IN
+               /\ x.sub.on => (x.sub.cuL >= 0 /\ x.sub.cuL <= x.sub.cuT)
+               /\ x.subn.on => (x.subn.cuL >= 0 /\ x.subn.cuL <= x.subn.cuT)
+ProjectsFollow == \A c \in Consumers : LET x == st.cs[c] IN (x.sub.on => x.nproj >= 1) /\ (~x.sub.on /\ ~x.subn.on => x.nproj = 0)
+TimerArmed == \A c \in Consumers : LET x == st.cs[c]  y == prev.cs[c] IN
+              /\ x.subn.on => (x.subn.exp \in ToSet(x.mt) /\ x.subn.exp > st.t)
               \* a (re)armed month timer expires at utils.NextMonth(block time)  (NextMonth.tla is its transcription)
-              /\ (st.ev # "reset" /\ st.subn.on /\ (~prev.subn.on \/ st.subn.exp # prev.subn.exp)) => st.subn.exp = st.nm
+              /\ (NotReset /\ x.subn.on /\ (~y.subn.on \/ x.subn.exp # y.subn.exp)) => x.subn.exp = st.nm
 NoOtherPanic == ~(st.panic /\ st.pcls # "plan")
 \* transitions (prev -> st)
 FailedTxNoEffect ==
-  (IsTx(st) /\ ~st.ok) => /\ st.plans = prev.plans /\ st.sv = prev.sv /\ st.bal = prev.bal /\ st.mb = prev.mb
-                          /\ st.mt = prev.mt /\ st.ct = prev.ct /\ st.tcu = prev.tcu /\ st.nproj = prev.nproj
+  (IsTx(st) /\ ~st.ok) => /\ st.plans = prev.plans /\ st.cs = prev.cs /\ st.bal = prev.bal /\ st.mb = prev.mb /\ st.tcu = prev.tcu
 PriceOf(r, p) == LET s == r.plans[p] IN      \* price of the version GetPlan returned: latest not deleted
   LET c == {i \in 1..Len(s) : s[i].latest /\ s[i].del > r.h} IN IF c = {} THEN 0 ELSE s[CHOOSE i \in c : TRUE].price
+OthersSame(S) == \A b \in Buyers : b \notin S => st.bal[b] = prev.bal[b]
+\* successful auto-renewals of the month step: consumer -> [creator, price]
+Renewed(c) == LET y == prev.cs[c].subn IN
+              Fired(prev, st, c) /\ y.on /\ y.left = 1 /\ fowed[c].d = 0 /\ ~y.fut.on /\ y.auto # "none" /\ st.cs[c].subn.on
+RenewCharge(b) == LET RECURSIVE S(_) S(cs) == IF cs = {} THEN 0 ELSE LET c == CHOOSE x \in cs : TRUE IN
+                        (IF Renewed(c) /\ prev.cs[c].subn.cr = b THEN PriceOf(st, prev.cs[c].subn.auto) ELSE 0) + S(cs \ {c})
+                  IN S(Consumers)
 ExactCharge ==
   /\ (st.ev = "buy" /\ st.ok) =>
         LET c == FullPrice(PriceOf(prev, st.p), st.p, st.d) IN
-        /\ st.bal[st.cr] = prev.bal[st.cr] - c /\ st.mb = prev.mb + c
-        /\ \A b \in DOMAIN st.bal : b # st.cr => st.bal[b] = prev.bal[b]
+        /\ st.bal[st.cr] = prev.bal[st.cr] - c /\ st.mb = prev.mb + c /\ OthersSame({st.cr})
   /\ (st.ev = "adv" /\ st.ok) =>
         LET np == FullPrice(PriceOf(prev, st.p), st.p, st.d)
-            c == IF prev.subn.fut.on THEN np - prev.subn.fut.credit ELSE np IN
-        /\ c > 0 /\ st.bal[st.cr] = prev.bal[st.cr] - c /\ st.mb = prev.mb + c
-        /\ \A b \in DOMAIN st.bal : b # st.cr => st.bal[b] = prev.bal[b]
-  /\ (st.ev \in {"auto", "planadd", "plandel", "relay"}) => st.bal = prev.bal
-  /\ (st.ev \in {"block", "epoch", "stale", "payout"}) => st.bal = prev.bal
+            f == prev.cs[st.c].subn.fut
+            c == IF f.on THEN np - f.credit ELSE np IN
+        /\ c > 0 /\ st.bal[st.cr] = prev.bal[st.cr] - c /\ st.mb = prev.mb + c /\ OthersSame({st.cr})
+  /\ (st.ev = "drain" /\ st.ok) => (st.bal[st.cr] = st.d /\ st.mb = prev.mb /\ OthersSame({st.cr}))
+  /\ (st.ev \in {"auto", "planadd", "plandel", "relay", "block", "epoch", "stale", "payout"}) => OthersSame({})
   /\ (st.ev = "month" /\ st.ok /\ ~st.panic) =>
-        \* only a successful auto-renewal charges: exactly one month of the plan renewed onto
-        LET renewed == prev.subn.on /\ prev.subn.left = 1 /\ ~prev.subn.fut.on /\ prev.subn.auto # "none" /\ st.subn.on
-        IN IF renewed
-           THEN /\ st.bal[prev.subn.cr] = prev.bal[prev.subn.cr] - PriceOf(st, prev.subn.auto)
-                /\ \A b \in DOMAIN st.bal : b # prev.subn.cr => st.bal[b] = prev.bal[b]
-           ELSE st.bal = prev.bal
+        \* only successful auto-renewals charge: exactly one month of the plan renewed onto, to the recorded creator
+        \A b \in Buyers : st.bal[b] = prev.bal[b] - RenewCharge(b)
 MonthResets ==
-  (st.ev = "month" /\ st.ok /\ ~st.panic /\ st.subn.on) => st.subn.cuL = st.subn.cuT
+  \A c \in Consumers : (Fired(prev, st, c) /\ ~st.panic /\ st.cs[c].subn.on) => st.cs[c].subn.cuL = st.cs[c].subn.cuT
 
-\* C11 (Obs), on the transition prev -> st
-NotReset == st.ev # "reset"
-TraceShape == NotReset => Cardinality(Consumed(prev, st)) <= 1
+-----------------------------------------------------------------------------
+\* ---- C11: the cu-tracker timer consumed between two logged lines (the driver cuts advances so that there is
+\*      at most one; C11 histories use consumer c1 only) and what it should pay --------------------------------
+PC == "c1"
+SumSeq(f, n) == LET RECURSIVE S(_) S(i) == IF i = 0 THEN 0 ELSE f[i] + S(i - 1) IN S(n)
+Consumed(a, b) == IF IsAdv(b) THEN {i \in 1..Len(a.cs[PC].ct) : a.cs[PC].ct[i].at < b.h} ELSE {}
+OtherConsumed(a, b) == IF IsAdv(b) THEN UNION {{i \in 1..Len(a.cs[c].ct) : a.cs[c].ct[i].at < b.h} : c \in Consumers \ {PC}} ELSE {}
+Timer(a, b) == a.cs[PC].ct[CHOOSE i \in Consumed(a, b) : TRUE]
+Keys(a, sblk) == {j \in 1..Len(a.tcu) : a.tcu[j].sblk = sblk /\ a.tcu[j].c = PC}
+TotalCu(a, sblk) == SumSeq([j \in 1..Len(a.tcu) |-> IF j \in Keys(a, sblk) THEN a.tcu[j].cu ELSE 0], Len(a.tcu))
+Amt(credit, total) == IF credit \div total > LIMIT_PER_CU THEN LIMIT_PER_CU * total ELSE credit
+Share(a, credit, total, j) == (Amt(credit, total) * a.tcu[j].cu) \div total
+ProvShare(a, sblk, credit, total, p) ==
+  SumSeq([j \in 1..Len(a.tcu) |-> IF j \in Keys(a, sblk) /\ a.tcu[j].pv = p THEN Share(a, credit, total, j) ELSE 0], Len(a.tcu))
+\* tokens that left (subscription module + buyers) in the step
+Tot(a) == a.mb + SumF([b \in Buyers |-> a.bal[b]], Buyers)
+Out(a, b) == Tot(a) - Tot(b)
+ProvDelta(a, b, p) == b.prov[p] - a.prov[p]
+RecvProv(a, b) == ProvDelta(a, b, "v1") + ProvDelta(a, b, "v2") + ProvDelta(a, b, "v3") + (b.contr - a.contr)
+
+TraceShape == NotReset => (Cardinality(Consumed(prev, st)) <= 1 /\ OtherConsumed(prev, st) = {})
 HasPayout == NotReset /\ Consumed(prev, st) # {}
 \* recipients (providers with their delegators, contributor) never receive more than what left the module and the
 \* buyers; the rest went to the validators / community pools (their balances are not compared: the rewards module
 \* pays block rewards out of them and burns leftovers on its own schedule).  Without participation fees and
 \* contributor (mode 0) nothing goes to the pools unless the subscription is gone.
-RecvProv(a, b) == ProvDelta(a, b, "v1") + ProvDelta(a, b, "v2") + ProvDelta(a, b, "v3") + (b.contr - a.contr)
 AllAccounted == NotReset => /\ RecvProv(prev, st) >= 0 /\ RecvProv(prev, st) <= Out(prev, st)
                             /\ (st.mode = 0 /\ HasPayout /\ TotalCu(prev, Timer(prev, st).sblk) > 0) => RecvProv(prev, st) = Out(prev, st)
 PaidBounded == /\ (NotReset /\ ~HasPayout) => Out(prev, st) = 0
@@ -184,7 +208,7 @@ PaidBounded == /\ (NotReset /\ ~HasPayout) => Out(prev, st) = 0
 Proportional ==
   HasPayout => LET c == Timer(prev, st)  total == TotalCu(prev, c.sblk) IN
     total > 0 =>
-      LET sum == SumSeq([j \in 1..Len(prev.tcu) |-> IF prev.tcu[j].sblk = c.sblk THEN Share(prev, c.credit, total, j) ELSE 0], Len(prev.tcu)) IN
+      LET sum == SumSeq([j \in 1..Len(prev.tcu) |-> IF j \in Keys(prev, c.sblk) THEN Share(prev, c.credit, total, j) ELSE 0], Len(prev.tcu)) IN
       \* the module pays the rounded-down shares; the later split (validators / community / contributor / delegators)
       \* may leave a few indivisible tokens of a share unsent - never more than the share
       /\ Out(prev, st) <= sum /\ Out(prev, st) >= sum - 3 * Cardinality(Keys(prev, c.sblk))
@@ -199,11 +223,11 @@ PaidOnce ==
 ZeroCuMonth ==
   HasPayout => LET c == Timer(prev, st) IN
     TotalCu(prev, c.sblk) = 0 =>
-      LET V == SubVM(prev.sv)  v == FindV(V, c.at, c.at) IN
+      LET V == SubVM(prev.cs[PC].sv)  v == FindV(V, c.at, c.at)  w == st.cs[PC].sv IN
       IF v # NONE
       THEN /\ Out(prev, st) = 0
            \* the credit went back to the subscription version found at the payout block
-           /\ (st.ev # "month" /\ \E i \in 1..Len(st.sv) : st.sv[i].b = v) =>
-                 \E i \in 1..Len(st.sv) : st.sv[i].b = v /\ st.sv[i].s.credit = V[v].d.credit + c.credit
+           /\ (st.ev # "month" /\ \E i \in 1..Len(w) : w[i].b = v) =>
+                 \E i \in 1..Len(w) : w[i].b = v /\ w[i].s.credit = V[v].d.credit + c.credit
       ELSE /\ Out(prev, st) = c.credit /\ RecvProv(prev, st) = 0       \* to the validators pool
 =============================================================================
